@@ -43,7 +43,7 @@ LEVEL_NOTE = ("Trusted: Coq kernel, extraction, translator harness/translate/c03
               "C02's theorem). Constant spelling is repr (trusted; wf states that an int's repr is its digits). The operand-precedence requirement of each slot "
               "of each Expr*.iterate is hand-modelled and tied by the exhaustive slot x child product, not translated. as_dict is outside the model.")
 MODEL = ("Model.C03_run", "run_C03")
-COQ_TARGETS = ["Proofs/C03_expr.vo", "Proofs/C03_repaired.vo"]
+COQ_TARGETS = ["Proofs/C03_expr.vo", "Proofs/C03_repaired.vo", "Proofs/C03_walk.vo"]
 RULE = ("exhaustive: every (parent node type, operand slot) x every representative child (all node types, all 4+13+2+10 operators, equal-valued constants of "
         "different types) at depth 2, rotated over the 7 storing positions (assignment value, annotation, parameter annotation/default, returns, decorator, "
         "base class) with and without `from __future__ import annotations`; every ordered pair of ==-equal constants inside one expression; history "
@@ -486,7 +486,7 @@ def observe_impl(expr):
     if expr is None:
         return []
     if isinstance(expr, str):
-        return [[expr, "str", [[0, expr]], [[0, expr]], expr, expr]]
+        return [[expr, "str", [[0, expr]], [[0, expr]], expr, expr, 1, [[0, expr]]]]
 
     def canon(p):
         try:
@@ -506,7 +506,9 @@ def observe_impl(expr):
     flat = [pk(p) for p in expr.iterate(flat=True)]
     one = [[0, p] if isinstance(p, str) else [2, type(p).__name__, str(p), canon(p)] for p in expr]
     mod = expr.modernize()
-    return [[str(expr), type(expr).__name__, flat, one, canon(expr), str(mod) if mod is expr else "modernize() is not the identity: " + str(mod)]]
+    walk = [pk(p) for p in expand_one_layer(expr)]      # what a renderer does with iter(expr), recursively
+    return [[str(expr), type(expr).__name__, flat, one, canon(expr), str(mod) if mod is expr else "modernize() is not the identity: " + str(mod),
+             1, walk]]
 
 
 def expand_one_layer(expr):
@@ -1246,6 +1248,8 @@ def check_case(ctx, c, obj, out, stream):
     if not gaps:
         ctx.observe("gap_family", "none")
     # (C) model vs implementation
+    if mbuild and mbuild[0][6] != 1:
+        ctx.tie_failure("harness", "model: the recursive one-layer walk did not end within its fuel (hypothesis of C03_recursive_walk_is_flat)", {}, cj)
     impl = observe_impl(obj)
     if mbuild != impl:
         ctx.tie_failure("correspondence", "build/iterate/render(model) vs griffe.visit + str/iterate", {"model": str(mbuild)[:600], "impl": str(impl)[:600]}, cj)
